@@ -281,6 +281,16 @@ Proof.
   split; [reflexivity|]. split; eexists; eexists; (split; [vm_compute; reflexivity|]); repeat split; reflexivity.
 Qed.
 
+(* instances whose own html is EMPTY or white space still count: the marker is all that stands for them (the emit-side
+   assumption says every rendered instance writes one, whatever it renders - seed C04f broke exactly that) *)
+Example empty_output_instances_are_delivered :
+  let d := [ ([], (ex_hash2, [97; 49], [], [])); ([32; 10; 9], (ex_hash1, [97; 50], [], [])) ] in
+  check_doc (doc_bytes d [32], d, [32]) = true /\
+  rendered (doc_parts d) = [ex_hash2; ex_hash1] /\
+  exists c dd, process ex_tbl Document (doc_bytes d [32]) = Ok (c, dd) /\ c = [32; 10; 9; 32] /\
+    inline_of KJs (d_js dd) = [[107]; [106]] /\ tag_urls (media_of KJs (d_js dd)) = [UMedia [120]; UMedia [121]].
+Proof. cbv zeta. split; [vm_compute; reflexivity|]. split; [reflexivity|]. eexists. eexists. split; [vm_compute; reflexivity|]. repeat split. Qed.
+
 (* the placeholder that is the root of three nested components (witness of 59fa6d8) *)
 Example placeholder_three_ids :
   subst_placeholders (emit_placeholder KCss [(false, [97;48;48;48;48;49]); (false, [97;48;48;48;48;50]); (false, [97;48;48;48;48;51])] false) [74] [67]
